@@ -170,6 +170,14 @@ theorem C18_fatal_sites_precede_write :
 /-- the source contains no explicit `panic(` at all (the one in mapper.parseManual went with /repo 58408b2) -/
 theorem C18_panic_sites_classified : Facts.panicSites = [] := by decide
 
+/-- the only computed indices into go/ast field lists are `ftype.Results.List[n-1]` / `[n-2]` in restclient.cookClient, and `n` is
+    only ever 0 or the LENGTH OF THAT VERY LIST (the `n < 2` test before them is what the damaged-input runs exercise): counting
+    result VALUES (NumFields) while indexing result SPECS — grouped results `(a, b error)` — cannot come back unnoticed -/
+theorem C18_list_index_sites :
+    Facts.listIndexSites =
+      [ ("restclient", "cookClient", "ftype.Results.List", "n - 1", ["n := 0", "n = len(ftype.Results.List)"]),
+        ("restclient", "cookClient", "ftype.Results.List", "n - 2", ["n := 0", "n = len(ftype.Results.List)"]) ] := by decide
+
 /-- before the first write, exits come in exactly two flavours: os.Exit (only in main and ParseCommonFlags:
     usage, exit 2) and logx.Fatal* (exit 1) -/
 theorem C18_exit_two_sites :
